@@ -120,6 +120,7 @@ def script_sets_3():
         ("3:init-same-set-get/empty", EMPTY, [[i1], [["set", J1, "k", 1]], [["get", J1]]]),
         ("3:init-mixed/empty", EMPTY, [[i1, i2], [i2], [["init", JX], ["len"]]]),
         ("3:spelling-set-get/empty", EMPTY, [[["init", JX]], [["set", JX2, "q", "w"]], [["get", JX], ["len"]]]),
+        ("3:walk-while-init/empty", EMPTY, [[["init", J1]], [["iter"], ["set", J2, "k", 1]], [["iter"], ["get", J2]]]),
         ("3:docs/populated", pop((J1, {"k": 0}), (J2, {"k": 0})),
          [[["set", J1, "k", 1], ["get", J2]], [["set", J2, "k", 2], ["get", J1]], [["get", J1], ["get", J2], ["len"]]]),
     ]
@@ -144,7 +145,7 @@ def rand_scripts(rng, n_actors):
             elif r < 0.85:
                 ops.append(["get", sp])
             elif r < 0.95:
-                ops.append(["len"])
+                ops.append([rng.choice(["len", "iter"])])
             else:
                 ops.append(["project"])
         scripts.append(ops)
@@ -277,6 +278,10 @@ def make_actor(d, script):
                     obs.append(["doc", plain(p.open_job(op[1]).doc())])
                 elif op[0] == "len":
                     obs.append(["count", len(p)])
+                elif op[0] == "iter":
+                    # walk the project (as a worker that looks for its own jobs does); the handles are lazy: jobs that
+                    # another process is creating right now must not make the walk fail.  Same listing step as len().
+                    obs.append(["count", len([job.id for job in p])])
                 elif op[0] == "project":
                     p = signac.Project(d)
                 else:
@@ -382,6 +387,8 @@ def case_wire(case, schedule):
                 ts += ["set", enc_val(op[1]), "S" + op[2].encode().hex(), enc_val(op[3])]
             elif op[0] == "assign":
                 ts += ["assign", enc_val(op[1]), enc_val(op[2])]
+            elif op[0] == "iter":
+                ts += ["len"]       # for the model: the same single listing step
             else:
                 ts += [op[0]]
     ts += ["sched", str(len(schedule))] + [str(a) for a in schedule]
@@ -520,7 +527,7 @@ def oracle(case, d, res, trace, label):
     # a `job.doc()` hands back exactly what its own read of the file saw (never a stale copy)
     for a, ops in enumerate(scripts):
         obs = list(res.exits.get(a, {}).get("obs") or [])
-        gets = [op for op in ops if op[0] in ("get", "len")]
+        gets = [op for op in ops if op[0] in ("get", "len", "iter")]
         seen = {}
         for op, o in zip(gets, obs):
             if op[0] == "get":
@@ -845,7 +852,7 @@ def run_case(case, ctx):
     shared = False
     ids = [{ref_id(op[1]) for op in ops if op[0] in ("init", "set", "get")} for ops in case["scripts"]]
     for x, y in itertools.combinations(range(n_act), 2):
-        if ids[x] & ids[y] or not case["init"]["ws"] or any(op[0] == "len" for op in case["scripts"][x] + case["scripts"][y]):
+        if ids[x] & ids[y] or not case["init"]["ws"] or any(op[0] in ("len", "iter") for op in case["scripts"][x] + case["scripts"][y]):
             shared = True
     out["tags"] = sorted(tagset) + ["mode=" + case["mode"], "actors=%d" % n_act,
                                     "init=" + ("nows" if not case["init"]["ws"] else "populated" if case["init"]["jobs"] else "empty"),
